@@ -238,7 +238,7 @@ func c19KeyVariants(ver *fx.Version) []map[string]interface{} {
 
 func c19(r *hx.Run) {
 	fx.Quiet()
-	r.Rule = "(handler configurations: create responses and long-form resolution under every combination of label, domain and namespace alias, ids per the rule documented in the handler; GetHint) (the generic doctransformer is run on the same jobs with plain options: document == internal document + id, same metadata, missing id refused) internal documents built from every validator-accepted key variant (6 key types x {Ed25519/P-256/secp256k1 JWK, base58} x 8 purpose sets), all ordered pairs of a 24-variant subset (thorough: triples of 10), service variants (string/list/object endpoint x extra members) singly and in pairs, documents with 3..33 keys / services / aliases, alias lists, foreign members; resolution models over commitments {both, recovery only, none} x deactivated x anchor origin {nil, string, object} x version id x times x references; transformer options base x method context x operation lists x {default, custom} key-context map; TransformDocument on the real transformer must equal the independent projection (own base58/multibase) and metadata computed from the model; the same relation through DocumentHandler.ResolveDocument for published and unpublished DIDs. Non-trivial: every distinct (document, model, options) triple."
+	r.Rule = "(handler configurations: create responses and long-form resolution under every combination of label, domain and namespace alias, ids per the rule documented in the handler; GetHint) (the generic doctransformer is run on the same jobs with plain options: document == internal document + id, same metadata, missing id refused) internal documents built from every validator-accepted key variant (6 key types x {Ed25519/P-256/secp256k1 JWK, base58} x 8 purpose sets), all ordered pairs of a 24-variant subset (thorough: triples of 10), service variants (string/list/object endpoint x extra members) singly and in pairs, documents with 3..33 keys / services / aliases, alias lists, foreign members; resolution models over commitments {both, recovery only, none} x deactivated x anchor origin {nil, string, object} x version id x times x references; transformer options base x method context list (0, 1, 2, 4 entries) x operation lists x {default, custom} key-context map; TransformDocument on the real transformer must equal the independent projection, also after the same transformer instance has transformed another document (results do not share state), (own base58/multibase) and metadata computed from the model; the same relation through DocumentHandler.ResolveDocument for published and unpublished DIDs. Non-trivial: every distinct (document, model, options) triple."
 	ver := fx.NewVersion(fx.DefaultProtocol(), nil)
 	keyVars := c19KeyVariants(ver)
 	r.Extra["key_variants"] = len(keyVars)
@@ -335,7 +335,8 @@ func c19(r *hx.Run) {
 	}
 	var optsList []c19Opts
 	for _, base := range []bool{false, true} {
-		for _, mc := range [][]string{nil, {"https://method.example/ctx/v1"}} {
+		for _, mc := range [][]string{nil, {"https://method.example/ctx/v1"}, {"https://method.example/ctx/v1", "https://method.example/ctx/v2"},
+			{"https://m.example/1", "https://m.example/2", "https://m.example/3", "https://m.example/4"}} {
 			for _, ip := range []bool{false, true} {
 				for _, iu := range []bool{false, true} {
 					optsList = append(optsList, c19Opts{base, mc, ip, iu, false})
@@ -409,7 +410,21 @@ func c19(r *hx.Run) {
 					r.Violation("panic:TransformDocument", caseID, fmt.Sprint(p), nil)
 				}
 			}()
-			res, err = didtransformer.New(topts...).TransformDocument(&rm, info)
+			tr := didtransformer.New(topts...)
+			res, err = tr.TransformDocument(&rm, info)
+			if err == nil {
+				// a second transformation by the same transformer (another document, another DID) must leave the first result alone
+				first := canonOf(res.Document)
+				firstMD := canonOf(doc.Plain(res.DocumentMetadata))
+				other := jobs[(ji*31+7)%len(jobs)]
+				rm2 := other.rm.rm
+				rm2.Doc = document.Document(doc.Clone(other.d.d).(doc.Doc))
+				info2 := dochandler.GetTransformationInfoForPublished(ns, ns+":EiOtherSuffix", "EiOtherSuffix", &rm2)
+				_, _ = tr.TransformDocument(&rm2, info2)
+				if canonOf(res.Document) != first || canonOf(doc.Plain(res.DocumentMetadata)) != firstMD {
+					r.Violation("result-changed-by-later-transformation", caseID, fmt.Sprintf("the result of the first transformation changed after the same transformer processed %s\n  before: %s\n  after : %s", other.d.name, hx.Trunc(first, 400), hx.Trunc(canonOf(res.Document), 400)), nil)
+				}
+			}
 		}()
 		r.Eval()
 		r.State()
